@@ -91,6 +91,7 @@ def _make(rnd, fmt, session=False):
         before = sorted({ids[rnd.randint(0, len(ids) - 1)] for _ in range(rnd.randint(1, 2))})
     return {"init": init, "ops": ops, "mid_ops": mid if session else [], "subset": sorted(set(subset)), "fmt": fmt,
             "export_before": before, "export_before_fmt": rnd.choice(["geff", "geff", "csv"]),
+            "colors": rnd.random() < 0.3,
             "display": rnd.random() < 0.3, "zarr": 3 if rnd.random() < 0.3 else 2}
 
 
@@ -198,6 +199,10 @@ def _probe_csv(res, inp, world, tr, closure, parent, tmp):
     kwargs = {}
     if seg is not None and not display:
         kwargs = {"export_seg": True, "seg_path": tmp / "s.tif"}
+    if inp.get("colors"):
+        # a colour for every node (as a viewer keeps them): adds a colour column, nothing else
+        kwargs["color_dict"] = {n: np.array([(int(n) % 7) / 7.0, 0.5, 1.0, 1.0]) for n in world.nodes()}
+        res.tags.append("c15:csv_with_colors")
     export_to_csv(tr, tmp / "t.csv", node_ids=set(inp["subset"]), use_display_names=display, **kwargs)
     df = pd.read_csv(tmp / "t.csv")
     idc, pc = ("ID", "Parent ID") if display else ("id", "parent_id")
@@ -215,7 +220,7 @@ def _probe_csv(res, inp, world, tr, closure, parent, tmp):
             res.fail("csv_parent", f"node {i}: parent {got} != {exp}")
         if got is not None and got not in set(ids):
             res.fail("csv_parent_missing", f"node {i}: parent {got} is not exported")
-    if kwargs:
+    if "export_seg" in kwargs:
         out = tifffile.imread(tmp / "s.tif")
         exp = np.zeros(seg.shape, dtype=np.int64)
         for n in closure:
